@@ -512,9 +512,12 @@ impl Drop for BackgroundQueueJoinHandle {
     fn drop(&mut self) {
         if let Some(handle) = self.handle.take() {
             self.shutdown_signal.store(true, Ordering::Relaxed);
+            metrique_writer_core::__verif_point!("bq.h_flag");
             self.unparker.unpark();
+            metrique_writer_core::__verif_point!("bq.h_unparked");
             tracing::info!("awaiting background metrics queue shutdown");
             handle.join().unwrap();
+            metrique_writer_core::__verif_point!("bq.h_joined");
             tracing::info!("background metrics queue shut down");
         }
     }
@@ -525,6 +528,7 @@ impl<E> Inner<E> {
         // force_push causes the oldest entry to be dropped if the queue is full. We want this since the more recent
         // metrics are more valuable when describing the state of the service!
         if self.queue.force_push(entry).is_some() {
+            metrique_writer_core::__verif_point!("bq.displaced");
             if let Some(recorder) = self.recorder.as_ref() {
                 recorder.increment_counter("metrique_queue_overflows", &self.name, 1);
             }
@@ -535,15 +539,19 @@ impl<E> Inner<E> {
                 )
             );
         }
+        metrique_writer_core::__verif_point!("bq.pushed");
         // Note that we're not enormously concerned about the ordering guarantees between the queue push and the unpark
         // signal. That's because the writer thread will at most wait for flush_interval before waking itself up.
         self.unparker.unpark();
+        metrique_writer_core::__verif_point!("bq.push_unparked");
     }
 
     fn flush_async(&self) -> FlushWait {
         let (channel, receiver) = tokio::sync::oneshot::channel();
         self.flush_queue_sender.send(FlushSignal { channel }).ok();
+        metrique_writer_core::__verif_point!("bq.flush_sent");
         self.unparker.unpark();
+        metrique_writer_core::__verif_point!("bq.flush_unparked");
         FlushWait::from_future(async move {
             let _ = receiver.await;
         })
@@ -661,6 +669,7 @@ impl<S: EntryIoStream, E: Entry> Receiver<S, E> {
         let inner = self.inner.clone();
 
         loop {
+            metrique_writer_core::__verif_point!("bq.w_outer_start");
             let next_flush = Instant::now() + self.flush_interval;
             let loop_start: Instant = Instant::now();
             let mut idle_duration = Duration::ZERO;
@@ -673,6 +682,11 @@ impl<S: EntryIoStream, E: Entry> Receiver<S, E> {
                     status,
                     entry_count,
                 );
+                metrique_writer_core::__verif_point!(
+                    "bq.w_handled",
+                    waker_tracker.waiting_wakers.len(),
+                    waker_tracker.entries_before_wake
+                );
 
                 if status == DrainResult::HitDeadline {
                     break; // Hit deadline, flush stream
@@ -684,6 +698,7 @@ impl<S: EntryIoStream, E: Entry> Receiver<S, E> {
 
                 // if the waker tracker can make progress observing an empty queue, let it
                 if !waker_tracker.will_progress_on_drained_queue() {
+                    metrique_writer_core::__verif_point!("bq.w_park");
                     let park_start = Instant::now();
                     self.parker.park_deadline(next_flush);
                     if self.inner.recorder.is_some() {
@@ -691,6 +706,7 @@ impl<S: EntryIoStream, E: Entry> Receiver<S, E> {
                     }
                 }
 
+                metrique_writer_core::__verif_point!("bq.w_after_park");
                 // If we did make it to the next flush deadline, flush, else someone woke us up and we'll continue
                 // writing.
                 if Instant::now() >= next_flush {
@@ -698,6 +714,7 @@ impl<S: EntryIoStream, E: Entry> Receiver<S, E> {
                 }
             }
 
+            metrique_writer_core::__verif_point!("bq.w_outer_flush");
             self.flush_stream();
             if let Some(recorder) = &self.inner.recorder {
                 let queue_len = self.inner.queue.len().try_into().unwrap_or(u32::MAX);
@@ -714,10 +731,12 @@ impl<S: EntryIoStream, E: Entry> Receiver<S, E> {
             }
             if self.shutdown_signal.load(Ordering::Relaxed) {
                 tracing::info!("caught shutdown signal, shutting down background metrics queue");
+                metrique_writer_core::__verif_point!("bq.w_exit", 1);
                 return self.shut_down();
             }
             if Arc::get_mut(&mut self.inner).is_some() {
                 tracing::info!("no appenders left, shutting down background metrics queue");
+                metrique_writer_core::__verif_point!("bq.w_exit", 2);
                 return self.shut_down();
             }
         }
@@ -729,15 +748,20 @@ impl<S: EntryIoStream, E: Entry> Receiver<S, E> {
         // a reasonably accurate flush interval. Instead, we'll check the clock every 32 entries if we're still seeing
         // entries remaining in the queue.
         let mut count = 0usize;
+        metrique_writer_core::__verif_point!("bq.w_pop");
         while let Some(entry) = self.inner.queue.pop() {
+            metrique_writer_core::__verif_point!("bq.w_popped");
             self.consume(entry);
 
             count += 1;
             if count.is_multiple_of(32) && Instant::now() >= deadline {
+                metrique_writer_core::__verif_point!("bq.w_hit", count);
                 return (DrainResult::HitDeadline, count);
             }
+            metrique_writer_core::__verif_point!("bq.w_pop");
         }
 
+        metrique_writer_core::__verif_point!("bq.w_drained", count);
         (DrainResult::Drained, count)
     }
 
@@ -821,8 +845,11 @@ impl<S: EntryIoStream, E: Entry> Receiver<S, E> {
         if status == DrainResult::HitDeadline {
             tracing::warn!("unable to drain metrics queue while shutting down");
         }
+        metrique_writer_core::__verif_point!("bq.s_drained");
         self.flush_stream();
+        metrique_writer_core::__verif_point!("bq.s_flushed");
         drop(self.stream); // Close the file before we report we're done!
+        metrique_writer_core::__verif_point!("bq.s_closed");
         tracing::info!("background metric log writing has shut down");
     }
 }
@@ -850,6 +877,70 @@ pub fn describe_sink_metrics<V: GlobalRecorderVersion + ?Sized>() {
 enum DrainResult {
     Drained,     // no entries left in the queue
     HitDeadline, // some entries left, but we're now past the deadline
+}
+
+
+/// Verification-only driver around the private `WakerTracker` (compiled with `--cfg metrique_verif`).
+#[cfg(metrique_verif)]
+#[doc(hidden)]
+pub mod verif_api {
+    use super::{DrainResult, FlushSignal, WakerTracker};
+
+    /// Steps the real waker-tracking state machine with chosen drain results.
+    pub struct WakerTrackerDriver {
+        tracker: WakerTracker,
+        sender: std::sync::mpsc::Sender<FlushSignal>,
+    }
+
+    impl Default for WakerTrackerDriver {
+        fn default() -> Self {
+            Self::new()
+        }
+    }
+
+    impl WakerTrackerDriver {
+        /// A fresh tracker with an empty flush-signal channel.
+        pub fn new() -> Self {
+            let (sender, receiver) = std::sync::mpsc::channel();
+            Self {
+                tracker: WakerTracker::new(receiver),
+                sender,
+            }
+        }
+
+        /// What `flush_async` does on the sending side; the returned receiver completes when woken.
+        pub fn request_flush(&self) -> tokio::sync::oneshot::Receiver<()> {
+            let (channel, receiver) = tokio::sync::oneshot::channel();
+            self.sender.send(FlushSignal { channel }).ok();
+            receiver
+        }
+
+        /// One call of `handle_waiting_wakers`; returns whether the stream flush callback ran.
+        pub fn handle(&mut self, capacity: usize, drained: bool, count: usize) -> bool {
+            let mut flushed = false;
+            let status = if drained {
+                DrainResult::Drained
+            } else {
+                DrainResult::HitDeadline
+            };
+            self.tracker
+                .handle_waiting_wakers(|| capacity, || flushed = true, status, count);
+            flushed
+        }
+
+        /// `will_progress_on_drained_queue`
+        pub fn will_progress(&mut self) -> bool {
+            self.tracker.will_progress_on_drained_queue()
+        }
+
+        /// Number of wakers currently tracked and the remaining entry budget.
+        pub fn internals(&self) -> (usize, usize) {
+            (
+                self.tracker.waiting_wakers.len(),
+                self.tracker.entries_before_wake,
+            )
+        }
+    }
 }
 
 #[cfg(test)]
